@@ -1,5 +1,5 @@
 CONSTANTS Threshold = 3  Timeout = 300  ProbeWindow = 10  Ticks = {3, 11, 301}  MaxLen = 0
-SPECIFICATION Spec
+SPECIFICATION SpecR
 VIEW View
 INVARIANT TypeOK
 PROPERTIES OpensOnlyAfterThreshold HoldsWhileOpen ProbeAdmitted ProbeSpacing ProbeClock SuccCloses FailReopens ClosedAdmits
